@@ -33,6 +33,7 @@ VARIABLES fs,        \* Paths -> Contents \cup {Absent}
           verdict    \* test name -> "pass" | "fail"  (after RunGeneratedTest)
 gvars == <<fs, fs0, beh, gen, opts, phase, verdict>>
 
+ExitCodes == {0, 3, 4}
 Behaviours == [files : [Outs -> Contents], STDOUT : Contents, STDERR : Contents, exit : {0, 3}]
 GInit == /\ fs0 \in [Paths -> Contents \cup {Absent}]
          /\ fs = fs0
@@ -70,7 +71,7 @@ Targets == Outs \cup {t \in Streams : IF t = "STDOUT" THEN opts.stdout ELSE opts
 Changed(t, c) == IF t \in Outs THEN [gen EXCEPT !.files[t] = c]
                  ELSE IF t = "STDOUT" THEN [gen EXCEPT !.STDOUT = c]
                  ELSE IF t = "STDERR" THEN [gen EXCEPT !.STDERR = c]
-                 ELSE [gen EXCEPT !.exit = IF @ = 0 THEN 3 ELSE 0]
+                 ELSE [gen EXCEPT !.exit = c]          \* another exit status (zero or not)
 ValueAt(b, t) == IF t \in Outs THEN b.files[t] ELSE IF t = "STDOUT" THEN b.STDOUT ELSE IF t = "STDERR" THEN b.STDERR ELSE b.exit
 PerturbTo(b) ==
     /\ phase \in {"generated", "tested"}
@@ -98,7 +99,8 @@ RunGeneratedTest ==
     /\ UNCHANGED <<fs0, beh, gen, opts>>
 
 GNext == Generate \/ RunGeneratedTest \/ Restore
-         \/ \E t \in Targets, c \in Contents \cup {Absent} : (t \in Outs \/ c # Absent) /\ Perturb(t, c)
+         \/ (\E t \in Targets \ {"exit"}, c \in Contents \cup {Absent} : ((t \in Outs \/ c # Absent) /\ Perturb(t, c)))
+         \/ (\E c \in ExitCodes : Perturb("exit", c))
 GSpec == GInit /\ [][GNext]_gvars
 
 ----------------------------------------------------------------------------
